@@ -30,17 +30,18 @@ const (
 )
 
 type ty struct {
-	kind   kind
-	name   string // Go type name of a composite
-	dict   bool   // dictionary struct: stored by pointer, has Freeze, may be shared
-	fields []fld  // struct fields / oneof alternatives
-	elem   *ty    // array element
-	key    *ty    // multimap
-	val    *ty
-	rt     reflect.Type  // the Go struct type (not the pointer)
-	cmp    reflect.Value // Cmp<Type>
-	hasF64 bool          // a float64 leaf is reachable
-	hasOpt bool          // struct with optional fields
+	kind     kind
+	name     string // Go type name of a composite
+	dict     bool   // dictionary struct: stored by pointer, has Freeze, may be shared
+	fields   []fld  // struct fields / oneof alternatives
+	elem     *ty    // array element
+	key      *ty    // multimap
+	val      *ty
+	rt       reflect.Type  // the Go struct type (not the pointer)
+	cmp      reflect.Value // Cmp<Type>
+	hasF64   bool          // a float64 leaf is reachable
+	hasOpt   bool          // struct with optional fields
+	reachOpt bool          // an optional field is reachable through mutable getters (not through a dictionary struct)
 }
 
 type fld struct {
@@ -225,6 +226,29 @@ func initSchema() {
 			}
 			if h {
 				t.hasF64 = true
+				changed = true
+			}
+		}
+	}
+	// reachability of optional fields (same fixpoint)
+	for changed := true; changed; {
+		changed = false
+		for _, t := range types {
+			if t.reachOpt {
+				continue
+			}
+			h := t.hasOpt
+			for _, f := range t.fields {
+				h = h || (f.t.reachOpt && !f.t.dict)
+			}
+			if t.elem != nil {
+				h = h || t.elem.reachOpt
+			}
+			if t.key != nil {
+				h = h || t.val.reachOpt
+			}
+			if h {
+				t.reachOpt = true
 				changed = true
 			}
 		}
